@@ -205,5 +205,5 @@ def run(ctx):
     ctx.stream("hashing-route-ops", "chops", ch_cases(ctx.rng("c18ch"), ctx.scale(60, 1200)), model=False, monitor=ch_monitor, shrink=True,
                removable=lambda l: not l.startswith(("new", "views")),
                classify=lambda l, o: "snaps=%d" % sum(1 for x in l if x == "snap"))
-    ctx.stream("in-flight", "midflight", inflight_cases(ctx.rng("c18f"), ctx.scale(40, 600)), model=False, monitor=inflight_monitor, shrink=False,
+    ctx.stream("in-flight", "midflight", inflight_cases(ctx.rng("c18f"), ctx.scale(40, 200)), model=False, monitor=inflight_monitor, shrink=False,
                timeout=ctx.scale(600, 3000), classify=lambda l, o: "changes=%d" % (sum(1 for x in l if x.startswith("probe ")) - 1))
